@@ -83,23 +83,25 @@ theorem C06_lookup_kind {cfg s st j} (h : lookup cfg s st = some j) :
   exact hn
 
 example : lookup { ids := fun i => i, kinds := fun _ => .iq, derived := true, spaces := fun _ => .stream }
-    { init with table := fun _ => some 0 } ⟨.message, 0, true, .stream⟩ = none := by
+    { init with table := fun _ => some 0 } ⟨.message, 0, true, .stream, false⟩ = none := by
   simp [lookup]
 example : lookup { ids := fun i => i, kinds := fun _ => .iq, derived := true, spaces := fun _ => .stream }
-    { init with table := fun _ => some 0 } ⟨.iq, 0, true, .stream⟩ = some 0 := by
+    { init with table := fun _ => some 0 } ⟨.iq, 0, true, .stream, false⟩ = some 0 := by
   simp [lookup, nsMatch]
 example : lookup { ids := fun i => i, kinds := fun _ => .iq, derived := true, spaces := fun _ => .other }
-    { init with table := fun _ => some 0 } ⟨.iq, 0, true, .stream⟩ = none := by
+    { init with table := fun _ => some 0 } ⟨.iq, 0, true, .stream, false⟩ = none := by
   simp [lookup, nsMatch]
 
 /-- only result/error stanzas consult the table: any other stanza (an incoming get/set IQ, a
 chat message, an available presence) goes to the handler even if its id is that of a pending
 request, and every waiter keeps waiting -/
 theorem C06_only_responses_consult_table {cfg s st} (hidle : s.spc = .idle) (hn : st.resp = false) :
-    ∃ s', step cfg s (.read st) = some s' ∧ s'.hlog = s.hist.length :: s.hlog ∧ s'.spc = .idle ∧
+    ∃ s', step cfg s (.read st) = some s' ∧ s'.hlog = s.hist.length :: s.hlog ∧
+      s'.spc = (if st.bad || (autoReply st && (s.broken || s.outClosed)) then .dead else .idle) ∧
       s'.rpc = s.rpc ∧ s'.table = s.table := by
   have hl : lookup cfg s st = none := by simp [lookup, hn]
-  simp [step, hidle, hl]
+  simp only [step, hidle, hl]
+  split <;> simp_all
 
 /-- a response reaches at most one caller … -/
 theorem C06_single_delivery {cfg s} (hr : Reach cfg s) {i i' k : Nat}
@@ -125,9 +127,11 @@ theorem C06_lookup_none_iff {cfg s st} :
   · simp_all
 
 theorem C06_unmatched_to_handler {cfg s st} (hidle : s.spc = .idle) (hl : lookup cfg s st = none) :
-    ∃ s', step cfg s (.read st) = some s' ∧ s'.hlog = s.hist.length :: s.hlog ∧ s'.spc = .idle
+    ∃ s', step cfg s (.read st) = some s' ∧ s'.hlog = s.hist.length :: s.hlog ∧
+      s'.spc = (if st.bad || (autoReply st && (s.broken || s.outClosed)) then .dead else .idle)
       ∧ s'.rpc = s.rpc := by
-  simp [step, hidle, hl]
+  simp only [step, hidle, hl]
+  split <;> simp_all
 
 theorem C06_matched_offered {cfg s st j} (hidle : s.spc = .idle) (hl : lookup cfg s st = some j) :
     ∃ s', step cfg s (.read st) = some s' ∧ s'.hlog = s.hlog ∧ s'.spc = .offering j s.hist.length := by
@@ -136,12 +140,15 @@ theorem C06_matched_offered {cfg s st j} (hidle : s.spc = .idle) (hl : lookup cf
 /-- the cancel window, made visible: a response is discarded only while the context registered
 for the matched waiter is done -/
 theorem C06_cancel_window {cfg s s'} (hs : step cfg s .abandon = some s') :
-    ∃ j k, s.spc = .offering j k ∧ ctxDone cfg s j = true ∧ s'.dropped = k :: s.dropped ∧ s'.spc = .idle := by
+    ∃ j k, s.spc = .offering j k ∧ ctxDone cfg s j = true ∧ s'.dropped = k :: s.dropped ∧
+      (s'.spc = .idle ∨ s'.spc = .dead) := by
   simp only [step] at hs
   split at hs
   · rename_i j k hj
     split at hs
-    · simp at hs; subst hs; exact ⟨j, k, hj, by assumption, rfl, rfl⟩
+    · simp at hs; subst hs
+      refine ⟨j, k, hj, by assumption, rfl, ?_⟩
+      simp only []; split <;> simp
     · simp at hs
   · simp at hs
 
@@ -155,6 +162,16 @@ theorem C06_progress_requester {cfg s} {i : Nat} (hw : s.rpc i = .waiting) :
   · intro hc; simp [step, hw, hc]
   · intro k hk; simp [step, hw, hk]
 
+/-- `Serve` only ever returns (in this model: after a failed write of its own) on an output that
+cannot take the write, and it leaves the output stream closed -/
+theorem serve_dead_closed {cfg s} (hr : Reach cfg s) (h : s.spc = .dead) : s.outClosed = true := by
+  induction hr with
+  | init => simp [init] at h
+  | step _ hs ih =>
+    rename_i s0 s1 a _
+    cases a <;> simp only [step] at hs <;> (try split at hs) <;> (try split at hs) <;> (try split at hs) <;>
+      (try split at hs) <;> (try simp at hs) <;> (try subst hs) <;> (try simp only [upd] at *) <;> grind
+
 /-- what the serve loop may be waiting for -/
 def ServeProgress (cfg : Cfg) (s : St) : Prop :=
   match s.spc with
@@ -163,7 +180,8 @@ def ServeProgress (cfg : Cfg) (s : St) : Prop :=
       (s.rpc j).heldOpen = some k ∧ ((step cfg s (.dereg j)).isSome ∨ (step cfg s (.close j)).isSome)
   | .offering j _ =>                                                        -- hand-off: somebody can move
       (step cfg s (.recv j)).isSome ∨ (step cfg s .abandon).isSome ∨
-      (step cfg s (.sendOk j)).isSome ∨ (step cfg s (.dereg j)).isSome
+      (step cfg s (.sendOk j)).isSome ∨ (step cfg s (.sendFail j)).isSome ∨ (step cfg s (.dereg j)).isSome
+  | .dead => s.outClosed = true                                             -- `Serve` returned: only after a write it had to make failed
 
 /-- the serve loop never waits for anything but peer input or the close of a response it has
 handed to a caller that still holds it open; while it offers a response, the matched caller or
@@ -175,7 +193,7 @@ theorem C06_progress_serve {cfg s} (hd : cfg.derived = true) (hr : Reach cfg s) 
   · rename_i hidle
     intro st
     simp only [step, hidle]
-    split <;> simp
+    split <;> (try split) <;> simp
   · rename_i j k hw
     have ho := hB.waitHold j k hw
     refine ⟨ho, ?_⟩
@@ -188,15 +206,19 @@ theorem C06_progress_serve {cfg s} (hd : cfg.derived = true) (hr : Reach cfg s) 
     have ho := (hB.offer j k hoff).2.2.1
     cases hj : s.rpc j with
     | fresh => exact absurd hj ho
-    | sending => right; right; left; simp [step, hj]
+    | sending => right; right; right; left; simp [step, hj]
     | waiting => left; simp [step, hj, hoff]
-    | leaving o => right; right; right; simp [step, hj]
+    | leaving o => right; right; right; right; simp [step, hj]
     | done o c => right; left; simp [step, hoff, ctxDone, hj, hd]
+  · rename_i hdead
+    exact serve_dead_closed hr hdead
 
-/-- once the caller closes the response the serve loop continues with the next stanza -/
+/-- once the caller closes the response the serve loop continues with the next stanza (unless the
+rest of that response cannot be read: then `Serve` returns the read error) -/
 theorem C06_continue_after_close {cfg s s'} (hr : Reach cfg s) {i j k : Nat}
     (hw : s.spc = .waitClose j k) (hs : step cfg s (.close i) = some s') :
-    i = j ∧ s'.spc = .idle ∧ ∀ st, (step cfg s' (.read st)).isSome := by
+    i = j ∧ (s'.spc = .idle ∨ s'.spc = .dead) ∧ (s'.spc = .idle → ∀ st, (step cfg s' (.read st)).isSome) ∧
+    (s'.spc = .dead → ∃ st, s.hist[k]? = some st ∧ st.bad = true) := by
   have hB := (inv_reach hr).2
   simp only [step] at hs
   split at hs
@@ -205,10 +227,69 @@ theorem C06_continue_after_close {cfg s s'} (hr : Reach cfg s) {i j k : Nat}
     rw [hw] at this
     injection this with hji hkk
     subst hji; subst hkk
-    simp [hw] at hs; subst hs
-    refine ⟨rfl, rfl, ?_⟩
-    intro st; simp only [step]; split <;> simp
+    simp only [hw, if_true] at hs
+    cases hh : s.hist[k]? with
+    | none => simp [hh] at hs; subst hs; refine ⟨rfl, Or.inl rfl, ?_, by simp⟩
+              intro _ st; simp only [step]; split <;> (try split) <;> simp
+    | some st0 =>
+      cases hb : st0.bad
+      · simp [hh, hb] at hs; subst hs; refine ⟨rfl, Or.inl rfl, ?_, by simp⟩
+        intro _ st; simp only [step]; split <;> (try split) <;> simp
+      · simp [hh, hb] at hs; subst hs; exact ⟨rfl, Or.inr rfl, by simp, fun _ => ⟨st0, rfl, hb⟩⟩
   · simp at hs
+
+/-! ### after a failed transmission: what still holds on a broken (or closed) output
+
+A transmission that fails after the start element went out leaves that element unfinished; every
+later write on the session fails (`errOutputBroken`), and `Serve` returns as soon as it has to
+write itself.  All theorems above are about every reachable state, so they hold after such a
+failure too; the statements below spell out what changes and what does not. -/
+
+/-- the output breaks only through a transmission that fails on an output that was still open -/
+theorem C06_broken_only_by_failed_transmission {cfg s a s'} (hs : step cfg s a = some s')
+    (hb : s'.broken = true) (h0 : s.broken = false) : ∃ i, a = .sendFail i ∧ s.outClosed = false := by
+  cases a <;> simp only [step] at hs <;> (try split at hs) <;> (try split at hs) <;> (try split at hs) <;>
+    (try split at hs) <;> (try simp at hs) <;> (try subst hs) <;> (try simp only [upd] at *) <;> grind
+
+/-- on a broken or closed output a new request cannot be transmitted: the call fails (and ends
+with its transmission error like any other failed transmission) -/
+theorem C06_broken_call_fails {cfg s} {i : Nat} (hs : s.rpc i = .sending)
+    (hb : s.broken = true ∨ s.outClosed = true) :
+    step cfg s (.sendOk i) = none ∧ ∃ s', step cfg s (.sendFail i) = some s' ∧ s'.rpc i = .leaving .sendErr := by
+  rcases hb with hb | hb <;> simp [step, hs, hb, upd]
+
+/-- the lookup, and with it the delivery of responses that are still coming in, does not depend
+on the state of the output -/
+theorem C06_lookup_ignores_output_state (cfg : Cfg) (s : St) (st : Stanza) (b c : Bool) :
+    lookup cfg { s with broken := b, outClosed := c } st = lookup cfg s st := rfl
+
+/-- every other waiter still ends exactly once and nothing blocks for ever: in every reachable
+state (broken output or not) a waiting call can take its reply if that was looked up, can take
+its context error once the context is done, and the serve loop — unless `Serve` has returned —
+waits for nothing but peer input or the close of a response a caller still holds -/
+theorem C06_after_failed_transmission {cfg s} (hd : cfg.derived = true) (hr : Reach cfg s) :
+    (∀ i, s.rpc i = .waiting → s.cancelled i = true → (step cfg s (.timeout i)).isSome) ∧
+    (∀ i k, s.rpc i = .waiting → s.spc = .offering i k → (step cfg s (.recv i)).isSome) ∧
+    ServeProgress cfg s ∧ (s.spc = .dead → s.outClosed = true) :=
+  ⟨fun i hw hc => (C06_progress_requester hw).1 hc, fun i k hw ho => (C06_progress_requester hw).2 k ho,
+   C06_progress_serve hd hr, serve_dead_closed hr⟩
+
+/-- `Serve` returns (in this model) only when it must write its own reply to an unhandled get/set
+on an output that cannot take it, or when the rest of an element cannot be read (the element it
+gave to the handler, dropped in the cancel window, or handed to a caller) -/
+theorem C06_serve_ends_only_on_failed_own_write {cfg s a s'} (hs : step cfg s a = some s')
+    (hd : s'.spc = .dead) (h0 : s.spc ≠ .dead) :
+    (∃ st, a = .read st ∧ lookup cfg s st = none ∧
+      (st.bad = true ∨ (autoReply st = true ∧ (s.broken = true ∨ s.outClosed = true)))) ∨
+    (∃ k st, s.hist[k]? = some st ∧ st.bad = true ∧
+      ((∃ i, (a = .close i ∨ a = .readErr i) ∧ s.spc = .waitClose i k) ∨ (∃ j, a = .abandon ∧ s.spc = .offering j k))) := by
+  cases a <;> simp only [step] at hs <;> (try split at hs) <;> (try split at hs) <;> (try split at hs) <;>
+    (try split at hs) <;> (try simp at hs) <;> (try subst hs) <;> (try simp only [upd] at *) <;> grind
+
+example : ∃ s, run { ids := fun i => i, kinds := fun _ => .iq, derived := true } init
+    [.call 0, .sendFail 0, .dereg 0, .call 1, .sendFail 1, .read ⟨.message, 7, false, .stream, false⟩,
+     .read ⟨.iq, 7, false, .stream, false⟩] = some s ∧ s.spc = .dead ∧ s.hlog = [1, 0] ∧ s.broken = true := by
+  simp [run, step, init, lookup, upd, autoReply]
 
 /-! ### no channel misuse -/
 
@@ -228,6 +309,31 @@ theorem C06_no_double_close {cfg} {i : Nat} {o : Outcome} :
     split at hr
     · rename_i s1 hs1; exact ih hr (stable hs1 h)
     · simp at hr
+
+/-- the errCloser path: reading the response into its error closes it — once; afterwards neither
+a further failed read nor the caller's `Close` closes the hand-off channel again, on any schedule -/
+theorem C06_response_closed_at_most_once {cfg} {i : Nat} {o : Outcome} :
+    ∀ {as s s'}, run cfg s as = some s' → s.rpc i = .done o true →
+      step cfg s' (.close i) = none ∧ step cfg s' (.readErr i) = none := by
+  have stable : ∀ {s a s'}, step cfg s a = some s' → s.rpc i = .done o true → s'.rpc i = .done o true := by
+    intro s a s' hs h
+    cases a <;> simp only [step] at hs <;> (try split at hs) <;> (try split at hs) <;> (try split at hs) <;>
+      (try split at hs) <;> (try simp at hs) <;> (try subst hs) <;> simp only [upd] at * <;> grind
+  intro as
+  induction as with
+  | nil => intro s s' hr h; simp [run] at hr; subst hr; simp [step, h]
+  | cons a as ih =>
+    intro s s' hr h
+    simp only [run] at hr
+    split at hr
+    · rename_i s1 hs1; exact ih hr (stable hs1 h)
+    · simp at hr
+
+/-- both ways of closing a response (the caller's `Close`, a failed read) leave it closed -/
+theorem C06_closing_marks_closed {cfg s s'} {i : Nat} (hs : step cfg s (.close i) = some s' ∨ step cfg s (.readErr i) = some s') :
+    ∃ k, s.rpc i = .done (.reply k) false ∧ s'.rpc i = .done (.reply k) true := by
+  rcases hs with hs | hs <;> simp only [step] at hs <;> (split at hs) <;> (try split at hs) <;> (try split at hs) <;>
+    (try simp at hs) <;> (try subst hs) <;> simp_all [upd]
 
 /-- the hand-off (the serve loop's send) only ever completes with a requester that is inside its
 `select`, i.e. whose channel has not been closed (closing needs `done`) -/
@@ -253,7 +359,7 @@ def cfgSnapshot : Cfg := { ids := fun i => i, kinds := fun _ => .iq, derived := 
 theorem C06_progress_serve_fails_without_fix :
     ¬ (∀ s, Reach cfgSnapshot s → ServeProgress cfgSnapshot s) := by
   intro h
-  have hr : ∃ s, run cfgSnapshot init [.call 0, .read ⟨.iq, 0, true, .stream⟩, .sendFail 0, .dereg 0] = some s := by
+  have hr : ∃ s, run cfgSnapshot init [.call 0, .read ⟨.iq, 0, true, .stream, false⟩, .sendFail 0, .dereg 0] = some s := by
     simp [run, step, init, lookup, upd, cfgSnapshot, nsMatch]
   obtain ⟨s, hs⟩ := hr
   have := h s (reach_run Reach.init hs)
@@ -263,7 +369,7 @@ theorem C06_progress_serve_fails_without_fix :
 
 /-- the same schedule is harmless in the repaired code -/
 example : ∃ s, run { cfgSnapshot with derived := true } init
-    [.call 0, .read ⟨.iq, 0, true, .stream⟩, .sendFail 0, .dereg 0, .abandon] = some s ∧ s.spc = .idle := by
+    [.call 0, .read ⟨.iq, 0, true, .stream, false⟩, .sendFail 0, .dereg 0, .abandon] = some s ∧ s.spc = .idle := by
   simp [run, step, init, lookup, upd, cfgSnapshot, ctxDone, nsMatch]
 
 /-! ### receipts helper -/
